@@ -35,7 +35,8 @@ META = {
                    "Project.dateToIdx/idxToDate and their compiled twins: range facts on every in-range result, clamp "
                    "results as affine forms of the table size, monotonicity of index -> time, a sentinel rule for the "
                    "interval scan, and the pair comparison of C13 restricted to the conversion functions."
-                   " Also: every dateToIdx result decided on the computed index, floor (not truncation) in all conversions, reset of the run on every non-matching path, and a non-empty clipped run at every reported interval.",
+                   " Also: every dateToIdx result decided on the computed index, floor (not truncation) in all conversions, reset of the run on every non-matching path, and a non-empty clipped run at every reported interval."
+                   " Round 3: conversions are not answered from memos that a change of start or resolution does not empty (invalidation rule).",
     "assumptions": ["resolution > 0"],
     "trusted_base": ["Cython 3.3.0 front end (pair comparison)"],
 }
